@@ -18,7 +18,7 @@ func init() {
 	props.Register(&props.Check{ID: "C11", Level: "exploration", Run: run, Replay: replay})
 }
 
-var ocspAlpha = []string{"good", "revoked", "unknown-status", "forged-unrelated-nocert", "err", "http-500", "timeout", "good-delegate", "expired", "revoked-inv-after", "revoked-inv-far-future", "revoked-inv-malformed", "revoked-inv-undecodable", "unknown-status-inv-after", "expired-after-st", "expired-revoked-inv-after"}
+var ocspAlpha = []string{"good", "revoked", "unknown-status", "forged-unrelated-nocert", "err", "http-500", "timeout", "good-delegate", "expired", "revoked-inv-after", "revoked-inv-far-future", "revoked-inv-malformed", "revoked-inv-undecodable", "unknown-status-inv-after", "expired-after-st", "expired-revoked-inv-after", "good-multi", "st-unauthorized", "st-trylater", "other-serial-negated"}
 var crlAlpha = []string{"clean", "lists", "expired", "fetch-fail", "delta-ok", "delta-lists"}
 
 func vectors(alpha []string, maxLen int) [][]string {
